@@ -296,3 +296,20 @@ def subspecs(s):
                 rec(c)
     rec(s)
     return out
+
+
+def retype(s, how):
+    """The spec with numeric constants replaced by == constants of another type
+    (how: i2f | f2i | b2i): an 'equal' expression that means something else."""
+    if isinstance(s, list):
+        if len(s) == 3 and s[0] == "Const":
+            if how == "i2f" and s[1] == "int" and abs(s[2]) < 2**50:
+                return ["Const", "float", float(s[2])]
+            if how == "f2i" and s[1] == "float" and s[2] == s[2] and abs(s[2]) < 2**50 \
+                    and s[2] == int(s[2]):
+                return ["Const", "int", int(s[2])]
+            if how == "b2i" and s[1] == "bool":
+                return ["Const", "int", int(s[2])]
+            return s
+        return [retype(c, how) for c in s]
+    return s
